@@ -119,6 +119,20 @@ CLAIMS = {
    note="the acceptance theorem is proved for the single-signature lock; the other pairs (layout 2, multisig, script-hash, graftroot, graftap) are tied by builder-bytes comparison and verdict matrices, not by a per-lock theorem.",
    technique="Lean 4 proof (byte-level symbolic execution of the lock on the VM model, refinement to the C02 pure spec) + verdict-matrix oracle + differential correspondence of builder bytes and runs",
    design="§5 C13"),
+ 'C14': dict(
+   text="Proved for all certificates: unpack(pack(c)) = c and |pack(c)| = 105 for every 32-byte delegate key, begin / end below 2^32 (the builder admits < 2^31), either may-delegate flag and every 64-byte signature; byte 40 of the signed preimage is 0xff exactly for delegable certificates. "
+        "Tie and exactness: Certificate.pack / unpack and the bytes of make_delegate_key_lock / make_delegate_key_chain_lock vs the model's builders; the acceptance condition of both locks is judged on the implementation alone by an independent oracle "
+        "(per-link signer, begin <= t < end, not ahead of the clock by the slack, may-delegate on every non-final link, final delegate signs the sigfields) over chains of length 1..6, all window boundaries (t = begin, end-1, end), all may-delegate patterns, every single-field corruption and cross-chain splices; every run is also executed on the model VM.",
+   note="the exact acceptance condition of the two delegation locks is decided by oracle + model correspondence, not by a Lean theorem about the lock bytes (theorem coverage: serialisation clause, and the window instructions via C16.1).",
+   technique="Lean 4 proof (serialisation round trip for all field values) + acceptance oracle on the implementation + differential correspondence of builder bytes and runs",
+   design="§5 C14"),
+ 'C15': dict(
+   text="Proved: the refund arm's pushed deadline is read back by CHECK_TIMESTAMP_VERIFY as exactly created+timeout for every non-negative deadline, so by C16.1 the refund time condition is exactly t >= deadline and not ahead of the clock by the slack; a negative deadline reads back >= 2^(8 len - 1). "
+        "Group level (any commutative group, L*G = 0): the PTLC witness scalar (x+t) mod L is the secret of the claim point X+T, of no claim point with another tweak point, and the receiver key alone does not open a tweaked lock. "
+        "Tie and exactness: bytes of the six lock kinds and four witness kinds vs the model's builders; verdict grid (path x key x preimage x time at deadline-1 / deadline / deadline+1 / ahead of clock, preimage lengths 1..64, digest sizes, tweak scalars, sigfields, flags, all cross-pairings of witness kinds with lock kinds) judged on the implementation alone and executed on the model VM.",
+   note="the exact acceptance condition of each lock is decided by oracle + model correspondence, not by a per-lock Lean theorem; PTLC tweak scalars are clamped as make_ptlc_witness expects (an unreduced tweak scalar is outside the builder's contract).",
+   technique="Lean 4 proof (codec read-back + C16 window theorem, abelian-group algebra) + verdict-grid oracle + differential correspondence of builder bytes and runs",
+   design="§5 C15"),
  'C10': dict(
    text="Lean theorems over all integers / all byte strings: bytesToInt (intToBytes n) = some n, decoding total exactly on non-empty strings, decoded range, "
         "top bit of the encoding = sign, and minimality of the encoding (no shorter string decodes to n). The model is tied to int_to_bytes / bytes_to_int / "
